@@ -25,7 +25,7 @@ RULE = ('one case = one family of related neutron_scattering calls on a random m
         '(formula strings with random bracketing, {atom: count} dicts, nested structures, Formula arithmetic), energy= '
         'vs wavelength=, one vector of 1-7 wavelengths (list or numpy array) vs the scalar calls, the same list/array object then '
         'edited in place 1-2 times (rotate, reverse, one item, rescale, refill) and passed again with no call in between; '
-        'natural_density= (value, value*k) for the compound as string, dict and Formula object with/without its own density, '
+        'natural_density= (value, value*k, and the same value with all counts*c) for the compound as string, dict and Formula object with/without its own density, '
         'and density= against a Formula object carrying another density; plus conversion cases '
         '(E, lambda, v scalars and vectors) and the documented anchors. distinct = distinct (sorted atom keys, forms '
         'and tree shapes of the renderings, vector length/container/energy-or-wavelength) of families that are '
@@ -54,8 +54,10 @@ ASSUMPTIONS = ['thermal/cold range taken as wavelength 0.05..50 Angstrom (energy
                'formula strings avoid the two white-space patterns D24/D25 (they belong to C01)',
                'natural_density= is a way of stating the density: the value given in the call decides (also for a Formula object that '
                'carries a density of its own), an explicit density= likewise; what natural_density means for isotopes and ions is C12 - '
-               'here only (a) scaling it by k, (b) independence of the way the compound is passed and (c) natural_density=d equals '
-               'density=d for compounds of neutral natural-abundance elements are demanded',
+               'here only (a) scaling it by k, (b) independence of the way the compound is passed, (c) natural_density=d equals '
+               'density=d for compounds of neutral natural-abundance elements and (d) invariance under multiplying all counts by a '
+               'constant (the clause "multiplying all counts by a constant ... changes nothing" read with the density stated as '
+               'natural_density=; ions and isotopes included) are demanded',
                'a vector result describes the values the wavelength/energy object holds at the time of the call; the caller may edit '
                'its own list/array in place between calls and no call may modify it',
                'a NaN in any output is reported as a violation (the relations are equalities between numbers)',
@@ -678,7 +680,9 @@ def _natural_density_relations(ctx, case, base, wla, keys):
     """The density stated through natural_density=: (a) string, dict and Formula object (with or without a
     density of its own) give the same numbers for the same value, (b) value*k scales SLDs and cross sections
     by k and the penetration depth by 1/k, (c) an explicit density= decides over the object's own density,
-    (d) for neutral natural-abundance elements natural_density=d is density=d."""
+    (d) for neutral natural-abundance elements natural_density=d is density=d, (e) all counts times a constant
+    with the same natural_density= changes nothing (isotopes and ions included: isotopic and natural mass of the
+    cell are both sums over the atoms, so their ratio does not depend on the size of the cell)."""
     import periodictable as pt
     from ..gen import compounds as G
     uni = _state['uni']
@@ -720,6 +724,16 @@ def _natural_density_relations(ctx, case, base, wla, keys):
     want[:6] *= k
     want[6] /= k
     _compare(ctx, what, got, want, 'natural_density.scale')
+    # (e) all counts * c (the 'scale' rendering of the family) at the same natural density
+    for sv in case['variants']:
+        if sv.get('rel') == 'scale':
+            what = 'natural_density=%r, counts*%s via %s vs string %r' % (v, sv.get('scale'), sv['form'], text)
+            got = _flat7(ctx, what, _call(ctx, what, _build(sv), natural_density=v, wavelength=wla))
+            _nonneg(ctx, what, got)
+            ctx.count('natural_density.counts_scaled')
+            if any(q for _Z, _A, q in keys):
+                ctx.count('natural_density.counts_scaled_with_ions')
+            _compare(ctx, what, got, s_res, 'natural_density.counts_scale', diag=_Diag({'form': 'string', 'text': text}, sv))
     # (c) explicit density= decides
     if carried is not None:
         what = 'density=%r via %s (own density %r) vs base' % (rho, how, carried)
@@ -999,6 +1013,7 @@ def finish(ctx):
                     'no call re-used an in-place edited %s wavelength buffer with an energy-dependent atom' % container)
     ctx.require('natural_density.object_with_own_density', 1, 'natural_density= never met a Formula object with its own density')
     ctx.require('natural_density.object_without_density', 1, 'natural_density= never met a Formula object without density')
+    ctx.require('natural_density.counts_scaled_with_ions', 1, 'counts*c under natural_density= never met a compound with ions')
     uni = _state['uni']
     ctx.info['universe'] = {k: len(v) for k, v in uni.classes.items()}
     for name in ('contract._calculate_scattering', 'contract.neutron_wavelength', 'contract.neutron_energy',
